@@ -23,7 +23,7 @@ FILES = ["core/calculator.py", "core/tasks.py", "core/full_modulus.py", "core/qh
          "core/phonon_contribution/shear.py", "io/config/config.py", "io/config/validate.py", "io/output/results_writer.py", "io/traditional/elast_dat.py",
          "io/traditional/qha_input.py", "util/fill.py", "util/units.py", "util/voigt.py"]
 
-from contracts.frame_contracts import ALLOWED_AMBIENT, ALLOWED_SET_ITERATION, ALLOWED_WRITES, ALLOWED_AMBIENT_MODULE, ALLOWED_WRITES_MODULE, frame_result  # noqa: E402,F401
+from contracts.frame_contracts import history_fallback, ALLOWED_AMBIENT, ALLOWED_SET_ITERATION, ALLOWED_WRITES, ALLOWED_AMBIENT_MODULE, ALLOWED_WRITES_MODULE, frame_result  # noqa: E402,F401
 
 
 def run(s):
@@ -39,7 +39,7 @@ def run(s):
     for rel in FILES:
         def ob(rel=rel):
             return frame_result(rel)
-        s.oblige("C14.frame[%s]" % rel, ob, ["cij/" + rel], kind="frame")
+        s.oblige("C14.frame[%s]" % rel, ob, ["cij/" + rel], kind="frame", fallback=lambda rel=rel: history_fallback(rel))
 
     def module_state():
         """module-level shared objects are created once and are only read afterwards"""
@@ -159,6 +159,13 @@ def run(s):
 
     # ---------------- 4. bounded: whole process
     process_runs(s)
+    r = calc_env.interleaving_battery()
+    s.bounded_standin("C14.interleaved_calculations(colliding data sets)", "two synthetic calculations with equal file names, shapes, volume end points, component set and q-points but different "
+                      "interior volumes, column order, values and settings (one spelling out non-default nested settings and unit overrides, the other relying on the packaged defaults), "
+                      "interleaved in one process (A, B, A read again, both written, A rebuilt) against each alone in a fresh process with the opposite read order: arrays bit for bit, "
+                      "output files byte for byte", 6, 6, [] if not r.get("reproduced") else [dict(witness_id="interleaving", input=r.get("history", r.get("data")), observed=r.get("observed"),
+                                                                                                  expected=r.get("expected", "bit-identical results"))],
+                      ["calculator.Calculator", "calculator.Calculator.write_output"])
     s.min_obligations = 21
 
 
